@@ -74,14 +74,24 @@ def valid_input(loc, length) -> bool:
     return True
 
 
+def _nonempty(*locs) -> bool:
+    return all(int(p.start) < int(p.end) for l in locs for p in l.parts)
+
+
 def oracle_overlap(ctx, a, b, result, case=None):
     ctx.count("op:overlap")
+    if not _nonempty(a, b):
+        ctx.count("skipped:invalid-input")
+        return
     if bool(result) != ring.overlap(a, b):
         ctx.violate("overlap-iff-share-base", _facts(None, a, b, got=bool(result)), case or [_s(a), _s(b)])
 
 
 def oracle_contains(ctx, outer, inner, result, case=None):
     ctx.count("op:contains")
+    if not _nonempty(outer, inner):
+        ctx.count("skipped:invalid-input")
+        return
     if bool(result) != ring.contains(outer, inner):
         ctx.violate("contains-iff-parts-inside", _facts(None, outer, inner, got=bool(result)),
                     case or [_s(outer), _s(inner)])
@@ -89,10 +99,10 @@ def oracle_contains(ctx, outer, inner, result, case=None):
 
 def oracle_distance(ctx, a, b, wrap, result, case=None):
     ctx.count("op:distance_ring" if wrap else "op:distance_line")
-    if wrap:
-        if not (valid_input(a, wrap) and valid_input(b, wrap)):
-            ctx.count("skipped:invalid-input")
-            return
+    if not (valid_input(a, wrap or None) and valid_input(b, wrap or None)):
+        # includes origin-bridging operands measured without a wrap point (the ring distance does that internally)
+        ctx.count("skipped:invalid-input")
+        return
     expected = ring.distance(a, b, wrap or None)
     if result != expected:
         interleaved = (not ring.overlap(a, b)) and ring.intervals_intersect(
